@@ -966,7 +966,7 @@ func TestC18(t *testing.T) {
 	rec.Exhaustive(fmt.Sprintf("candidate-subsets(%d cases: 3 importers x 2 names x 3 kinds x with/without search x all subsets of 6/4 candidates)", len(rcs)), complete)
 
 	// (R1) random trees through the library
-	rec.Rapid(t, "tree", rec.Scale(40000, 800000), func(t *rapid.T) {
+	rec.Rapid(t, "tree", rec.Scale(40000, 600000), func(t *rapid.T) {
 		c := genTree(t, genLayoutLib(t), flags())
 		m := newModel(&c)
 		m.run()
@@ -983,7 +983,7 @@ func TestC18(t *testing.T) {
 	})
 
 	// (R2) negative probes
-	rec.Rapid(t, "probe", rec.Scale(12000, 200000), func(t *rapid.T) {
+	rec.Rapid(t, "probe", rec.Scale(12000, 160000), func(t *rapid.T) {
 		c := genTree(t, genLayoutLib(t), flags())
 		m := newModel(&c)
 		m.run()
@@ -1047,7 +1047,7 @@ func TestC18(t *testing.T) {
 	})
 
 	// (R3) modulemeta
-	rec.Rapid(t, "meta", rec.Scale(10000, 120000), func(t *rapid.T) {
+	rec.Rapid(t, "meta", rec.Scale(10000, 100000), func(t *rapid.T) {
 		c := genTree(t, genLayoutLib(t), flags())
 		m := newModel(&c)
 		// names reachable through the search paths alone, plus a missing one
@@ -1093,7 +1093,7 @@ func TestC18(t *testing.T) {
 	})
 
 	// (R4) data files
-	rec.Rapid(t, "data", rec.Scale(10000, 120000), func(t *rapid.T) {
+	rec.Rapid(t, "data", rec.Scale(10000, 100000), func(t *rapid.T) {
 		n := rapid.IntRange(0, 5).Draw(t, "nvals")
 		var sb strings.Builder
 		sb.WriteString(rapid.SampledFrom([]string{"", "", "\n", "  "}).Draw(t, "lead"))
@@ -1123,7 +1123,7 @@ func TestC18(t *testing.T) {
 	})
 
 	// (R5) random trees through the command: -L, default paths, ~/.jq, -f
-	rec.Rapid(t, "cli", rec.Scale(3000, 50000), func(t *rapid.T) {
+	rec.Rapid(t, "cli", rec.Scale(3000, 40000), func(t *rapid.T) {
 		c := genTree(t, genLayoutCLI(t, rec.KnownClass(classF2)), flags())
 		m := newModel(&c)
 		m.run()
